@@ -520,14 +520,22 @@ func (g *g2) stmts(env *g2env, list []ast.Stmt, tail string, stopAt func(ast.Stm
 			if !ok {
 				return "", fmt.Errorf("unsupported assignment target")
 			}
-			e, t, err := g.expr(env, s.Rhs[i])
-			if err != nil {
-				return "", err
-			}
+			rhs := s.Rhs[i]
 			switch s.Tok {
 			case token.DEFINE, token.ASSIGN:
 			default:
-				return "", fmt.Errorf("unsupported assignment operator %s", s.Tok)
+				// x op= y is x = x op (y)
+				binop, ok := map[token.Token]token.Token{token.ADD_ASSIGN: token.ADD, token.SUB_ASSIGN: token.SUB, token.MUL_ASSIGN: token.MUL,
+					token.OR_ASSIGN: token.OR, token.AND_ASSIGN: token.AND, token.XOR_ASSIGN: token.XOR,
+					token.SHL_ASSIGN: token.SHL, token.SHR_ASSIGN: token.SHR, token.QUO_ASSIGN: token.QUO, token.REM_ASSIGN: token.REM}[s.Tok]
+				if !ok || len(s.Lhs) != 1 {
+					return "", fmt.Errorf("unsupported assignment operator %s", s.Tok)
+				}
+				rhs = &ast.BinaryExpr{X: s.Lhs[i], Op: binop, Y: &ast.ParenExpr{X: rhs}}
+			}
+			e, t, err := g.expr(env, rhs)
+			if err != nil {
+				return "", err
 			}
 			if id.Name == "_" {
 				continue
